@@ -344,7 +344,7 @@ func (sg *sqlGen) ensureComposite() string {
 		}
 		d.Fields = append(d.Fields, &Field{Name: string(rune('A' + i)), Type: ft})
 	}
-	if rapid.IntRange(0, 3).Draw(t, "compUnexported") == 0 {
+	if rapid.IntRange(0, 1).Draw(t, "compUnexported") == 0 {
 		// an unexported integer field is an attribute of the composite type like the others
 		pos := rapid.IntRange(0, len(d.Fields)).Draw(t, "compUnexportedPos")
 		d.Fields = append(d.Fields[:pos], append([]*Field{{Name: "hidden", Type: Basic("int")}}, d.Fields[pos:]...)...)
